@@ -13,3 +13,5 @@ import Gittuf.Props.C03
 #print axioms Gittuf.RSL.C03_skipAll_inv
 #print axioms Gittuf.RSL.C03_step_annBackward
 #print axioms Gittuf.RSL.C03_F25
+#print axioms Gittuf.RSL.C03_run_extends
+#print axioms Gittuf.RSL.C03_run_prefix_extends
